@@ -56,8 +56,18 @@ def _run(cmd, lines, what, timeout, tagged=False):
     return res
 
 
+MACHINERY_ERRORS = []      # (what, request, message) of every answer that is a machinery failure, not an outcome of the library
+
+
+def _note_errors(what, reqs, res):
+    for r, a in zip(reqs, res):
+        if isinstance(a, dict) and "error" in a and "status" not in a:
+            MACHINERY_ERRORS.append((what, r, str(a["error"])[:300]))
+    return res
+
+
 def run_harness(reqs, timeout=1800):
-    return _run(HARNESS_BIN, reqs, "harness", timeout, tagged=True)
+    return _note_errors("harness", reqs, _run(HARNESS_BIN, reqs, "harness", timeout, tagged=True))
 
 
 def build_nolog(timeout=3600):
